@@ -123,6 +123,15 @@ CLAIMED = {
         "Trusted: Lean kernel + standard axioms; the shape table is read off the code by hand (the fault enumeration ties it to the running code); C07 for the harmlessness of left-over tables.",
         "DESIGN.md §6 C08",
     ),
+    "C10": (
+        "Lean 4 theorems about a model of the five inference entry points (predict, compare_two_records, realtime compare_records, find_matches_to_new_records, missing within-cluster edge scoring) over one "
+        "shared scoring function: all five report the same levels and weight for the same pair and TF values, find_matches returns exactly the existing records admitted by the first TRUE blocking rule whose "
+        "weight passes the threshold (attributed to that rule), missing-edge scoring returns exactly the admissible within-cluster pairs absent (in either orientation) from the supplied predictions, each once. "
+        "Tie: the five real entry points joined on record ids vs the compiled model, for EVERY pair of existing records and every new record (seen/unseen values, NULLs, computed/registered/own TF, "
+        "dedupe/link_only/link_and_dedupe, prefix-colliding dataset names), duckdb+sqlite; independent oracle recomputes levels and weights naively.",
+        "Trusted: Lean kernel + standard axioms; float arithmetic of the engines (bit patterns compared with tolerance documented in evidence); the SQL text of the level predicates is C16/C06's subject.",
+        "DESIGN.md §6 C10",
+    ),
     "C17": (
         "A translator (T-writes, Python ast pass over the creator classes incl. inheritance, aliases, setters and dialect hooks) regenerates on every run the table of attribute writes each "
         "creator performs while producing SQL, classified dialect-slot / config-constant / self-dependent; Lean 4 proves once and for all that a creator without self-dependent writes answers "
